@@ -201,6 +201,8 @@ def run_suite(ctx, name, gen_args, timeout=1200, driver=None):
     """Run a driver command producing a case file, then the model on it.
     Returns list of rows: dict(suite,input,impl,oracle,model,spec,extra...)."""
     prep = ctx.prep
+    if ctx.tier == "thorough":
+        timeout = max(timeout, 5400)     # megabyte-sized rows cost the extracted model minutes each
     d = os.path.join(C.WORK, "cases", ctx.pid)
     os.makedirs(d, exist_ok=True)
     cf = os.path.join(d, name + ".txt")
